@@ -334,7 +334,14 @@ impl SessionPool {
         let sessions = self.idle_sessions.read().await;
         sessions
             .values()
-            .map(|p| (p.seq, p.session.id(), p.session.is_closed(), p.idle_since.elapsed()))
+            .map(|p| {
+                (
+                    p.seq,
+                    p.session.id(),
+                    p.session.is_closed(),
+                    p.idle_since.elapsed(),
+                )
+            })
             .collect()
     }
 }
